@@ -133,6 +133,14 @@ CLAIMS = {
    note="the exact acceptance condition of each lock is decided by oracle + model correspondence, not by a per-lock Lean theorem; PTLC tweak scalars are clamped as make_ptlc_witness expects (an unreduced tweak scalar is outside the builder's contract).",
    technique="Lean 4 proof (codec read-back + C16 window theorem, abelian-group algebra) + verdict-grid oracle + differential correspondence of builder bytes and runs",
    design="§5 C15"),
+ 'C04': dict(
+   text="Proved on the VM model for every root, script, sibling, stack, cache, limits and hash function with 32-byte digests: OP_MERKLEVAL on a (script, sibling) pair that does not hash to the root ends in ScriptExecutionError before its EVAL step - "
+        "the final state differs from the initial one only in the stack, so no instruction of the supplied script ran (merkleval_rejects); on a pair that does hash to the root it behaves exactly as OP_EVAL of that script on the remaining stack, whatever that outcome is (merkleval_accepts). "
+        "Tie and exactness on the implementation: all tree shapes to 8 leaves, prioritized / balanced builders to 24 leaves incl. filler leaves: root / lock / pack / unlocking scripts vs the model's Tree functions; each leaf's unlock + lock hands to run_tape exactly the path's level scripts and that leaf, writes only that leaf's marker and gives the leaf's own verdict; "
+        "per-level corruptions (script bit, sibling bit, pair exchanged, levels exchanged, foreign leaf, foreign proof, uncommitted script): false, altered script never handed to run_tape, no marker; pack -> unpack keeps root and every unlocking script.",
+   note="the whole-tree completeness (every level of every tree verifies) and the pack / unpack round trip are decided by oracle + model correspondence in this commit; the theorems cover the instruction.",
+   technique="Lean 4 proof (big-step symbolic execution of OP_MERKLEVAL on the VM model, fuel-monotone interpreter) + started-scripts oracle on the implementation + differential correspondence of tree functions and runs",
+   design="§5 C04"),
  'C10': dict(
    text="Lean theorems over all integers / all byte strings: bytesToInt (intToBytes n) = some n, decoding total exactly on non-empty strings, decoded range, "
         "top bit of the encoding = sign, and minimality of the encoding (no shorter string decodes to n). The model is tied to int_to_bytes / bytes_to_int / "
